@@ -43,7 +43,7 @@ BIN = {ast.Add: operator.add, ast.Sub: operator.sub, ast.Mult: operator.mul, ast
        ast.Pow: operator.pow}
 CMP = {ast.Eq: operator.eq, ast.NotEq: operator.ne, ast.Lt: operator.lt, ast.LtE: operator.le, ast.Gt: operator.gt, ast.GtE: operator.ge,
        ast.In: lambda a, b: a in b, ast.NotIn: lambda a, b: a not in b, ast.Is: operator.is_, ast.IsNot: operator.is_not}
-PYEXC = (IndexError, KeyError, AttributeError, ValueError, TypeError, ZeroDivisionError, StopIteration)
+PYEXC = (IndexError, KeyError, AttributeError, ValueError, TypeError, ZeroDivisionError, StopIteration, OSError, OverflowError)
 def _setattr(o, k, v):
     if isinstance(o, types.SimpleNamespace):
         setattr(o, k, v)
@@ -67,6 +67,7 @@ FUNCS = {"float": float, "setattr": _setattr, "str": str, "dict": dict, "os.path
          "itertools.combinations_with_replacement": itertools.combinations_with_replacement,
          "combinations_with_replacement": itertools.combinations_with_replacement, "itertools.islice": lambda *a: list(itertools.islice(*a)),
          "islice": lambda *a: list(itertools.islice(*a)), "functools.reduce": reduce, "reduce": reduce,
+         "type": type, "bytes": bytes, "callable": callable, "id": id, "ord": ord, "chr": chr,
          "groupby": lambda *a, **k: [(key, list(g)) for key, g in itertools.groupby(*a, **k)],
          "itertools.groupby": lambda *a, **k: [(key, list(g)) for key, g in itertools.groupby(*a, **k)],
          "accumulate": lambda *a, **k: list(itertools.accumulate(*a, **k)), "itertools.accumulate": lambda *a, **k: list(itertools.accumulate(*a, **k)),
@@ -208,7 +209,7 @@ class Folder:
         if self.fuel < 0:
             raise Unknown("folding budget exhausted")
         if isinstance(e, ast.Constant):
-            if isinstance(e.value, (int, bool, str)) or e.value is None:
+            if isinstance(e.value, (int, bool, str, bytes)) or e.value is None:
                 return e.value
             raise Unknown("constant %r" % (e.value,))
         if isinstance(e, ast.Name):
@@ -444,6 +445,9 @@ class Folder:
                 raise Raised(type(x).__name__)
             return list(v) if fn in ("zip", "enumerate", "reversed", "combinations", "itertools.combinations", "permutations", "product",
                                      "itertools.product", "range") and not isinstance(v, range) else v
+        if isinstance(c.func, ast.Name) and c.func.id not in self.env and (c.func.id.endswith("Error") or c.func.id.endswith("Exception") or
+                                                                            c.func.id in ("StopIteration", "InternalBug", "KeyboardInterrupt")):
+            return types.SimpleNamespace(cls=c.func.id, args=tuple(args))          # an exception object, to be raised later
         if isinstance(c.func, ast.Name) and c.func.id[:1].isupper() and c.func.id not in self.env and self.opaque_constructors:
             return Opaque(c.func.id)
         if isinstance(c.func, ast.Attribute):
@@ -586,30 +590,48 @@ class Folder:
                 raise _Return(self.ev(s.value) if s.value is not None else None)
             elif isinstance(s, ast.Try):
                 try:
-                    self.run(s.body)
-                except Raised as r:
-                    handled = False
-                    for h in s.handlers:
-                        names = [] if h.type is None else [_name(t) for t in (h.type.elts if isinstance(h.type, ast.Tuple) else [h.type])]
-                        if h.type is None or r.cls in names or "Exception" in names or \
-                                (r.cls in ("IndexError", "KeyError") and "LookupError" in names) or \
-                                (r.cls in ("FileNotFoundError", "PermissionError") and ("OSError" in names or "IOError" in names)):
-                            if h.name:
-                                self.env[h.name] = types.SimpleNamespace(cls=r.cls)
-                            handled = True
-                            try:
-                                self.run(h.body)
-                            finally:
-                                self.run(s.finalbody)
-                            break
-                    if not handled:
-                        self.run(s.finalbody)
-                        raise
-                else:
-                    self.run(s.orelse)
+                    try:
+                        self.run(s.body)
+                    except Raised as r:
+                        handled = False
+                        for h in s.handlers:
+                            names = [] if h.type is None else [_name(t) for t in (h.type.elts if isinstance(h.type, ast.Tuple) else [h.type])]
+                            if h.type is None or r.cls in names or "Exception" in names or "BaseException" in names or \
+                                    (r.cls in ("IndexError", "KeyError") and "LookupError" in names) or \
+                                    (r.cls in ("FileNotFoundError", "PermissionError", "IOError", "NotADirectoryError", "IsADirectoryError")
+                                     and ("OSError" in names or "IOError" in names or "EnvironmentError" in names)) or \
+                                    (r.cls in ("ZeroDivisionError", "OverflowError") and "ArithmeticError" in names) or \
+                                    (r.cls == "UnicodeDecodeError" and "ValueError" in names) or (r.cls == "UnicodeEncodeError" and "ValueError" in names):
+                                if h.name:
+                                    self.env[h.name] = types.SimpleNamespace(cls=r.cls)
+                                handled = True
+                                saved_exc = self.env.get("__exc__")
+                                self.env["__exc__"] = r.cls
+                                try:
+                                    self.run(h.body)
+                                finally:
+                                    self.env["__exc__"] = saved_exc
+                                break
+                        if not handled:
+                            raise
+                    else:
+                        self.run(s.orelse)
+                finally:
+                    # also on return / break / continue out of the protected block
                     self.run(s.finalbody)
             elif isinstance(s, ast.Raise):
-                e = s.exc.func if isinstance(s.exc, ast.Call) else s.exc
+                if s.exc is None:
+                    raise Raised(self.env.get("__exc__") or "")
+                e = s.exc
+                if isinstance(e, ast.Call) and isinstance(e.func, ast.Name) and \
+                        (e.func.id in self.helpers or e.func.id in self.module_functions or e.func.id in self.env):
+                    v = self.ev(e)
+                    if hasattr(v, "cls") and isinstance(getattr(v, "cls"), str):
+                        raise Raised(v.cls)
+                    raise Unknown("raise of a computed value")
+                if isinstance(e, ast.Name) and e.id in self.env and isinstance(getattr(self.env[e.id], "cls", None), str):
+                    raise Raised(self.env[e.id].cls)
+                e = e.func if isinstance(e, ast.Call) else e
                 raise Raised(_name(e) if e is not None else "")
             elif isinstance(s, ast.Pass):
                 pass
